@@ -554,7 +554,7 @@ Lemma sufs_loop_pure : forall (l : list suffix) t,
                    bind (here (i_rng i)) (fun loc =>
                    bind state (fun s =>
                    match ty_find_field s t (i_name i) with
-                   | None => seq (err fr DCannotAccessField) none
+                   | None => match t with MUnknown => none | _ => seq (err fr DCannotAccessField) none end
                    | Some f => seq (add_reference (SyLeaf f) loc) (bind (leaf_of f) (fun lf => ret (lf_ty lf)))
                    end))
                  end (fun t' => sufs_loop t' r)
@@ -688,3 +688,444 @@ Section ValueCases.
         try discriminate; destruct (index_ty t s); discriminate.
   Qed.
 End ValueCases.
+
+Section ValueCases2.
+  Variable n : nat.
+  Hypothesis IHv : sim_value n.
+  Hypothesis IHa : sim_arg n.
+  Hypothesis IHb : sim_bang n.
+
+  (** after the reference has been recorded, the computation of the identifier's type is pure *)
+  Lemma sid_tail_pure : forall (sym : symid) (nm : name),
+      pure (bind state (fun s' =>
+              match sym with
+              | SyRecord rid =>
+                bind (lift (nthN (s_recs s') rid)) (fun r =>
+                if rc_class r then none else bind (lift (find_def s' nm)) (fun d => ret (MRecord d nm)))
+              | SyMc _ => none
+              | SyLeaf lid =>
+                bind (lift (nthN (s_leaves s') lid)) (fun l =>
+                match lf_kind l with LDefm => none | _ => ret (lf_ty l) end)
+              end)).
+  Proof.
+    intros sym nm. apply pure_bind; [apply pure_get|]. intros s'. destruct sym.
+    - apply pure_bind; [apply pure_lift|]. intros r. destruct (rc_class r); [apply pure_none|].
+      apply pure_bind; [apply pure_lift|]. intros; apply pure_ret.
+    - apply pure_none.
+    - apply pure_bind; [apply pure_lift|]. intros l. destruct (lf_kind l); first [apply pure_none|apply pure_ret].
+  Qed.
+
+  Lemma case_simple : sim_simple (S n).
+  Proof.
+    intros sv f e s Hf P HR Hb. destruct sv.
+    - apply Step_refl.
+    - apply Step_refl.
+    - apply Step_refl.
+    - apply Step_refl.
+    - apply Step_refl.
+    - (* bits *) simpl in *. unfold seq in *. simpl in *. now apply (values_sim n IHv).
+    - (* list *) simpl in *. unfold bind in *.
+      pose proof (values_sim_map n IHv vs f e s Hf P HR) as G.
+      destruct (mapM_opt (index_value n) vs s) as [[os|] s1]; simpl in *; apply G; assumption.
+    - (* dag *) simpl in *. unfold seq in *. simpl in *. now apply (values_sim n IHv).
+    - (* identifier *)
+      change (spec_simple f e (SId i)) with
+        (match lookup_id e (i_name i) with
+         | None => if name_eqb (i_name i) NAME then [] else [(at_file f (i_rng i), None)]
+         | Some d => [(at_file f (i_rng i), Some d)]
+         end) in *.
+      simpl in Hb |- *. unfold bind at 1 in Hb. unfold bind at 1. unfold here, get in *. simpl in *.
+      unfold bind at 1 in Hb. unfold bind at 1. unfold state, get in *. simpl in *.
+      destruct (lookup_id e (i_name i)) as [d|] eqn:El.
+      + pose proof (pre_id_some f e s P _ _ El) as Hv. unfold lookup_view in Hv.
+        destruct (resolve_id s (i_name i)) as [sym|] eqn:Er; [|discriminate].
+        unfold seq. rewrite (sid_tail_pure sym (i_name i)).
+        eapply Step_eq; [apply Step_add_reference|].
+        rewrite Hv. unfold at_file. now rewrite (pre_file f e s P).
+      + rewrite (pre_id_none f e s P _ El) in *.
+        change name_NAME with NAME in *.
+        destruct (name_eqb (i_name i) NAME); [apply Step_refl|]. simpl in HR. discriminate.
+    - (* class value *)
+      change (spec_simple f e (SClassVal i args r)) with
+        ((at_file f (i_rng i), lookup_class e (i_name i)) :: flat_map (spec_arg f e) args) in *.
+      simpl in HR. apply andb_true_iff in HR. destruct HR as [HR1 HR2]. unfold resolved in HR1; simpl in HR1.
+      destruct (lookup_class e (i_name i)) as [d|] eqn:El; [|discriminate].
+      pose proof (pre_cls_some f e s P _ _ El) as Hc. unfold class_view in Hc.
+      simpl in Hb |- *. unfold bind at 1 in Hb. unfold bind at 1. unfold here, get in *. simpl in *.
+      unfold bind at 1 in Hb. unfold bind at 1. unfold state, get in *. simpl in *.
+      destruct (find_class s (i_name i)) as [cid|] eqn:Ef; [|discriminate].
+      unfold seq at 1 in Hb. unfold seq at 1.
+      set (loc := {| r_file := current_file s; r_lo := r_lo (i_rng i); r_hi := r_hi (i_rng i) |}) in *.
+      pose proof (Step_add_reference s (SyRecord cid) loc) as S1.
+      set (s1 := snd (add_reference (SyRecord cid) loc s)) in *.
+      assert (E1 : define_loc s (SyRecord cid) = Some d) by exact Hc.
+      assert (Hrec : nthN (s_recs s1) cid <> None).
+      { destruct S1 as [_ (Hr & _) _ _]. rewrite Hr. destruct (nthN (s_recs s) cid); [discriminate|discriminate]. }
+      unfold bind at 1 in Hb. unfold bind at 1. simpl in *.
+      unfold bind at 1 in Hb. unfold bind at 1. unfold lift at 1 in Hb. unfold lift at 1.
+      destruct (nthN (s_recs s1) cid) as [rc|] eqn:Erc; [|congruence].
+      assert (P1 : Pre f e s1) by (eapply Pre_Step; eassumption).
+      unfold bind at 1 in Hb. unfold bind at 1.
+      pose proof (args_sim_map n IHa args f e s1 Hf P1 HR2) as S2.
+      destruct (mapM_opt (index_arg n) args s1) as [[avs|] s2] eqn:Em; simpl in *.
+      2:{ destruct (mapM_opt_state _ _ (index_arg n) args s1) as [_ Hsome]. rewrite Em in Hsome. simpl in Hsome. congruence. }
+      unfold seq in Hb |- *. simpl in *.
+      assert (Hb2 : s_bad s2 = false).
+      { eapply (bad_false_before _ (emit (check_template_args s2 (targ_leaves s1 (rc_targs rc)) avs r))); [|exact Hb].
+        unfold emit. apply (resp_iterM BadMono BM_refl BM_trans). intros; apply BM_err. }
+      specialize (S2 Hb2).
+      eapply Step_eq.
+      + eapply Step_trans; [exact S1|]. eapply Step_trans; [exact S2|].
+        apply Step_emit. intros d0 Hd0. eapply cta_kinds. exact Hd0.
+      + simpl. rewrite E1, app_nil_r. unfold at_file, loc. now rewrite (pre_file f e s P).
+    - (* bang *)
+      rewrite frag_simple_bang in Hf. apply andb_true_iff in Hf. destruct Hf as [Hf1 Hf2].
+      rewrite spec_simple_bang in *. simpl in Hb |- *. now apply IHb.
+    - (* cond *) simpl in *. unfold seq in *. simpl in *. now apply (values_sim n IHv).
+  Qed.
+End ValueCases2.
+
+Section ValueCases3.
+  Variable n : nat.
+  Hypothesis IHv : sim_value n.
+
+  Definition gv_check (expected : mty) (v : value) : M unit :=
+    bind (try_ (index_value n v)) (fun o =>
+      match o with
+      | Some t => bind state (fun s => if can_cast s t expected then ret tt else err (value_rng v) DOperand)
+      | None => ret tt
+      end).
+
+  Lemma BM_gv_check : forall ex v, resp BadMono (gv_check ex v).
+  Proof.
+    intros ex v. unfold gv_check. apply (resp_bind BadMono BM_trans).
+    - apply (resp_try BadMono), BM_index_value.
+    - intros [t|]; [|apply (resp_ret BadMono BM_refl)].
+      apply (resp_state BadMono). intros s. destruct (can_cast s t ex); [apply BM_refl|apply BM_err].
+  Qed.
+
+  Lemma gv_check_sim : forall ex v f e s,
+      frag_value v = true -> Pre f e s -> forallb resolved (spec_value f e v) = true ->
+      s_bad (snd (gv_check ex v s)) = false -> Step s (snd (gv_check ex v s)) (spec_value f e v).
+  Proof.
+    intros ex v f e s Hf P HR Hb. unfold gv_check, bind, try_ in *.
+    destruct (index_value n v s) as [o s1] eqn:E1. simpl in *.
+    assert (S1 : s_bad s1 = false -> Step s s1 (spec_value f e v)).
+    { intros Hb1. replace s1 with (snd (index_value n v s)) by now rewrite E1. apply IHv; auto. now rewrite E1. }
+    destruct o as [t|]; simpl in *; [|now apply S1].
+    unfold state, get in *. simpl in *. destruct (can_cast s1 t ex); simpl in *; [now apply S1|].
+    rewrite <- (app_nil_r (spec_value f e v)).
+    eapply Step_trans; [apply S1; exact Hb|]. apply Step_err. reflexivity.
+  Qed.
+
+  Lemma plain_ops_each : forall ex (post : st -> option mty) vs f e s,
+      forallb frag_value vs = true -> Pre f e s -> forallb resolved (flat_map (spec_value f e) vs) = true ->
+      s_bad (snd (seq (iterM (gv_check ex) vs) (bind state (fun s0 => lift (post s0))) s)) = false ->
+      Step s (snd (seq (iterM (gv_check ex) vs) (bind state (fun s0 => lift (post s0))) s))
+           (flat_map (spec_value f e) vs).
+  Proof.
+    intros ex post vs f e s Hf P HR Hb. unfold seq, bind, state, get, lift in *. simpl in *.
+    apply (iter_sim _ _ (gv_check ex) (spec_value f e) f e); auto.
+    - intros; apply BM_gv_check.
+    - intros x s0 Hin P0 HR0 Hb0. apply gv_check_sim; auto. eapply forallb_In; eassumption.
+  Qed.
+
+  Lemma plain_ops_none : forall (post : st -> list (option mty) -> list dg * option mty) vs f e s,
+      forallb frag_value vs = true -> Pre f e s -> forallb resolved (flat_map (spec_value f e) vs) = true ->
+      s_bad (snd (bind (mapM_opt (index_value n) vs) (fun os => bind state (fun s0 =>
+              let '(ds, t) := post s0 os in seq (iterM (fun d => err (fst d) DOperand) ds) (lift t))) s)) = false ->
+      Step s (snd (bind (mapM_opt (index_value n) vs) (fun os => bind state (fun s0 =>
+              let '(ds, t) := post s0 os in seq (iterM (fun d => err (fst d) DOperand) ds) (lift t))) s))
+           (flat_map (spec_value f e) vs).
+  Proof.
+    intros post vs f e s Hf P HR Hb. unfold bind at 1 in Hb. unfold bind at 1.
+    pose proof (values_sim_map n IHv vs f e s Hf P HR) as S1.
+    destruct (mapM_opt (index_value n) vs s) as [[os|] s1] eqn:Em; simpl in *; [|now apply S1].
+    unfold bind, state, get in *. simpl in *. destruct (post s1 os) as [ds t]. unfold seq, lift in *. simpl in *.
+    assert (Hb1 : s_bad s1 = false).
+    { eapply (bad_false_before _ (iterM (fun d : dg => err (fst d) DOperand) ds)); [|exact Hb].
+      apply (resp_iterM BadMono BM_refl BM_trans). intros; apply BM_err. }
+    rewrite <- (app_nil_r (flat_map (spec_value f e) vs)).
+    eapply Step_trans; [apply S1; exact Hb1|]. apply Step_errs. reflexivity.
+  Qed.
+End ValueCases3.
+
+Lemma first_ident_eq : forall v, first_ident v = value_first_ident v.
+Proof. intros [r [|[[] sufs] rest]]; reflexivity. Qed.
+
+Lemma scoped_bad : forall A k (body : M A) s,
+    s_bad (snd (scoped k body s)) = false -> s_bad (snd (body (pushed k s))) = false.
+Proof.
+  intros A k body s H. unfold scoped, seq, bind, try_, push_scope, upd in H; simpl in H.
+  fold (pushed k s) in H. destruct (body (pushed k s)) as [o s2]; simpl in *.
+  unfold lift, pop_scope in H. destruct (s_scopes s2); simpl in H; [discriminate|exact H].
+Qed.
+
+Definition bind_var (i : ident) (t : mty) : M unit :=
+  bind (here (i_rng i)) (fun loc => scopes_add_variable (mkLeaf LVar (i_name i) t false loc)).
+
+Lemma BM_bind_var : forall i t, resp BadMono (bind_var i t).
+Proof.
+  intros i t. unfold bind_var. apply (resp_bind BadMono BM_trans); [apply (resp_get BadMono BM_refl)|].
+  intros loc. bm_prim.
+Qed.
+
+Section Binders.
+  Variable n : nat.
+  Hypothesis IHv : sim_value n.
+
+  (** the state after declaring a variable in a freshly pushed block *)
+  Lemma bind_var_pushed : forall k i t f e s,
+      plain_kind k = true -> Pre f e s ->
+      let s3 := snd (bind_var i t (pushed k s)) in
+      StepV (pushed k s) s3 [] /\ Pre f (push_vars e [(i_name i, at_file f (i_rng i))]) s3.
+  Proof.
+    intros k i t f e s Hk P s3.
+    assert (Hf : current_file (pushed k s) = f) by (unfold pushed, current_file; simpl; apply (pre_file f e s P)).
+    assert (E : s3 = with_var (pushed k s) (mkLeaf LVar (i_name i) t false (mkR f (r_lo (i_rng i)) (r_hi (i_rng i))))).
+    { unfold s3, bind_var, bind, here, get, with_var; simpl. now rewrite Hf. }
+    rewrite E. split.
+    - eapply StepV_with_var. reflexivity.
+    - apply (Pre_with_var f (push_vars e []) (pushed k s) i t (mkScope k []) (s_scopes s)).
+      + now apply Pre_pushed.
+      + reflexivity.
+      + discriminate.
+  Qed.
+
+  Lemma scoped_var_value : forall k i t body f e s,
+      plain_kind k = true -> Pre f e s -> frag_value body = true ->
+      let e2 := push_vars e [(i_name i, at_file f (i_rng i))] in
+      forallb resolved (spec_value f e2 body) = true ->
+      s_bad (snd (scoped k (seq (bind_var i t) (index_value n body)) s)) = false ->
+      Step s (snd (scoped k (seq (bind_var i t) (index_value n body)) s)) (spec_value f e2 body).
+  Proof.
+    intros k i t body f e s Hk P Hf e2 HR Hb.
+    apply scoped_simV. apply scoped_bad in Hb. unfold seq in *.
+    destruct (bind_var_pushed k i t f e s Hk P) as [S1 P3].
+    set (s3 := snd (bind_var i t (pushed k s))) in *.
+    change (spec_value f e2 body) with ([] ++ spec_value f e2 body).
+    eapply StepV_trans; [exact S1|]. apply Step_StepV. apply IHv; auto.
+  Qed.
+
+  Lemma scoped_vars2_value : forall k ia ta iv tv body f e s,
+      plain_kind k = true -> Pre f e s -> frag_value body = true ->
+      let e2 := push_vars e [(i_name iv, at_file f (i_rng iv)); (i_name ia, at_file f (i_rng ia))] in
+      forallb resolved (spec_value f e2 body) = true ->
+      s_bad (snd (scoped k (seq (bind_var ia ta) (seq (bind_var iv tv) (index_value n body))) s)) = false ->
+      Step s (snd (scoped k (seq (bind_var ia ta) (seq (bind_var iv tv) (index_value n body))) s))
+           (spec_value f e2 body).
+  Proof.
+    intros k ia ta iv tv body f e s Hk P Hf e2 HR Hb.
+    apply scoped_simV. apply scoped_bad in Hb. unfold seq in *.
+    destruct (bind_var_pushed k ia ta f e s Hk P) as [S1 P3].
+    set (s3 := snd (bind_var ia ta (pushed k s))) in *.
+    (* second variable: added to the same (now non-empty) block *)
+    destruct S1 as [U1 V1 [vs1 Sc1] N1].
+    assert (Hsc : exists c t, s_scopes s3 = c :: t).
+    { rewrite Sc1. unfold pushed; simpl. eauto. }
+    destruct Hsc as [c [t Hsc]].
+    assert (Hf3 : current_file s3 = f) by apply (pre_file _ _ _ P3).
+    set (l2 := mkLeaf LVar (i_name iv) tv false (mkR f (r_lo (i_rng iv)) (r_hi (i_rng iv)))).
+    assert (E4 : snd (bind_var iv tv s3) = with_var s3 l2).
+    { unfold bind_var, bind, here, get, with_var; simpl. now rewrite Hf3. }
+    rewrite E4 in *.
+    pose proof (StepV_with_var s3 l2 c t Hsc) as S2.
+    assert (P4 : Pre f e2 (with_var s3 l2)).
+    { apply (Pre_with_var f (push_vars e [(i_name ia, at_file f (i_rng ia))]) s3 iv tv c t); auto. discriminate. }
+    change (spec_value f e2 body) with ([] ++ ([] ++ spec_value f e2 body)).
+    eapply StepV_trans; [split; [exact U1|exact V1|exists vs1; exact Sc1|exact N1]|].
+    eapply StepV_trans; [exact S2|]. apply Step_StepV. apply IHv; auto.
+  Qed.
+End Binders.
+
+Arguments bang_post : simpl never.
+
+Section OpsCase.
+  Variable n : nat.
+  Hypothesis IHv : sim_value n.
+
+  Lemma BM_scoped_body1 : forall k i t body, resp BadMono (scoped k (seq (bind_var i t) (index_value n body))).
+  Proof.
+    intros. apply (r_scoped BadMono BM_refl BM_trans); try bm_prim.
+    apply (resp_seq BadMono BM_trans); [apply BM_bind_var|apply BM_index_value].
+  Qed.
+
+  Lemma ops_filter_like : forall k (wrap : M mty -> mty -> M mty) var sq body f e s,
+      plain_kind k = true -> (forall m lt s0, snd (wrap m lt s0) = snd (m s0)) ->
+      frag_value sq = true -> frag_value body = true ->
+      is_ident_first var = true -> is_list_literal sq = true -> Pre f e s ->
+      let E := spec_value f e sq
+               ++ match first_ident var with
+                  | Some i => spec_value f (push_vars e [(i_name i, at_file f (i_rng i))]) body
+                  | None => []
+                  end in
+      let m := bind (index_value n sq) (fun lt =>
+               bind (lift (element_typ lt)) (fun vt =>
+               bind (lift (value_first_ident var)) (fun i =>
+               wrap (scoped k (seq (bind_var i vt) (index_value n body))) lt))) in
+      forallb resolved E = true -> s_bad (snd (m s)) = false -> Step s (snd (m s)) E.
+  Proof.
+    intros k wrap var sq body f e s Hk Hwrap Hfs Hfb Hid Hll P E m HR Hb. unfold E, m in *. clear E m.
+    rewrite forallb_app in HR. apply andb_true_iff in HR. destruct HR as [HR1 HR2].
+    unfold is_ident_first in Hid. rewrite first_ident_eq in *.
+    destruct (value_first_ident var) as [i|] eqn:Ei; [|discriminate].
+    unfold bind at 1 in Hb. unfold bind at 1.
+    destruct (index_value n sq s) as [olt s1] eqn:E1.
+    assert (Hb1 : s_bad s1 = false).
+    { destruct olt as [lt|]; simpl in Hb; [|exact Hb].
+      unfold bind at 1 in Hb. destruct (lift (element_typ lt) s1) as [[vt|] s1'] eqn:El; unfold lift in El;
+        injection El as El1 El2; subst s1'; simpl in Hb; [|exact Hb].
+      unfold bind at 1 in Hb. simpl in Hb. rewrite Hwrap in Hb.
+      eapply (bad_false_before _ (scoped k (seq (bind_var i vt) (index_value n body)))); [apply BM_scoped_body1|exact Hb]. }
+    assert (S1 : Step s s1 (spec_value f e sq)).
+    { replace s1 with (snd (index_value n sq s)) by now rewrite E1. apply IHv; auto. now rewrite E1. }
+    destruct (list_literal_typed n sq s Hll) as [lt [et [Elt Eet]]]; [now rewrite E1|].
+    rewrite E1 in Elt. simpl in Elt. subst olt. simpl in *.
+    unfold bind at 1 in Hb. unfold bind at 1. unfold lift at 1 in Hb. unfold lift at 1. rewrite Eet in *. simpl in *.
+    unfold bind at 1 in Hb. unfold bind at 1. simpl in *.
+    rewrite Hwrap in *.
+    assert (P1 : Pre f e s1) by (eapply Pre_Step; eassumption).
+    eapply Step_trans; [exact S1|]. rewrite first_ident_eq, Ei.
+    now apply (scoped_var_value n IHv k i et body f e s1 Hk P1 Hfb HR2).
+  Qed.
+
+  Lemma BM_scoped_body2 : forall k ia ta iv tv body,
+      resp BadMono (scoped k (seq (bind_var ia ta) (seq (bind_var iv tv) (index_value n body)))).
+  Proof.
+    intros. apply (r_scoped BadMono BM_refl BM_trans); try bm_prim.
+    apply (resp_seq BadMono BM_trans); [apply BM_bind_var|].
+    apply (resp_seq BadMono BM_trans); [apply BM_bind_var|apply BM_index_value].
+  Qed.
+
+  Lemma ops_foldl : forall init sq acc var body f e s,
+      frag_value init = true -> frag_value sq = true -> frag_value body = true ->
+      is_plain_literal init = true -> is_list_literal sq = true ->
+      is_ident_first acc = true -> is_ident_first var = true -> Pre f e s ->
+      let E := spec_value f e init ++ spec_value f e sq
+               ++ match first_ident acc, first_ident var with
+                  | Some ia, Some iv =>
+                    spec_value f (push_vars e [(i_name iv, at_file f (i_rng iv)); (i_name ia, at_file f (i_rng ia))]) body
+                  | _, _ => []
+                  end in
+      let m := bind (index_value n init) (fun it =>
+               bind (index_value n sq) (fun lt =>
+               bind (lift (element_typ lt)) (fun et =>
+               bind (lift (value_first_ident acc)) (fun ia =>
+               bind (lift (value_first_ident var)) (fun iv =>
+               seq (scoped KXFoldl (seq (bind_var ia it) (seq (bind_var iv et) (index_value n body)))) (ret it)))))) in
+      forallb resolved E = true -> s_bad (snd (m s)) = false -> Step s (snd (m s)) E.
+  Proof.
+    intros init sq acc var body f e s Hfi Hfs Hfb Hpl Hll Hia Hiv P E m HR Hb. unfold E, m in *. clear E m.
+    rewrite forallb_app in HR. apply andb_true_iff in HR. destruct HR as [HR0 HR].
+    rewrite forallb_app in HR. apply andb_true_iff in HR. destruct HR as [HR1 HR2].
+    unfold is_ident_first in *. rewrite !first_ident_eq in *.
+    destruct (value_first_ident acc) as [ia|] eqn:Eia; [|discriminate].
+    destruct (value_first_ident var) as [iv|] eqn:Eiv; [|discriminate].
+    (* the two operands run first; everything after respects BadMono *)
+    set (tail2 := fun it lt =>
+               bind (lift (element_typ lt)) (fun et =>
+               bind (lift (Some ia)) (fun ia0 =>
+               bind (lift (Some iv)) (fun iv0 =>
+               seq (scoped KXFoldl (seq (bind_var ia0 it) (seq (bind_var iv0 et) (index_value n body)))) (ret it))))) in *.
+    assert (BMt : forall it lt, resp BadMono (tail2 it lt)).
+    { intros it lt. unfold tail2. apply (resp_bind BadMono BM_trans); [apply (resp_lift BadMono BM_refl)|]. intros et.
+      apply (resp_bind BadMono BM_trans); [apply (resp_lift BadMono BM_refl)|]. intros ia0.
+      apply (resp_bind BadMono BM_trans); [apply (resp_lift BadMono BM_refl)|]. intros iv0.
+      apply (resp_seq BadMono BM_trans); [apply BM_scoped_body2|apply (resp_ret BadMono BM_refl)]. }
+    unfold bind at 1 in Hb. unfold bind at 1.
+    destruct (index_value n init s) as [oit s0] eqn:E0.
+    assert (Hb0 : s_bad s0 = false).
+    { destruct oit as [it|]; simpl in Hb; [|exact Hb].
+      eapply (bad_false_before _ (bind (index_value n sq) (fun lt => tail2 it lt))); [|exact Hb].
+      apply (resp_bind BadMono BM_trans); [apply BM_index_value|intros; apply BMt]. }
+    assert (S0 : Step s s0 (spec_value f e init)).
+    { replace s0 with (snd (index_value n init s)) by now rewrite E0. apply IHv; auto. now rewrite E0. }
+    destruct (plain_literal_typed n init s Hpl) as [it Eit]; [now rewrite E0|].
+    rewrite E0 in Eit. simpl in Eit. subst oit. simpl in *.
+    assert (P0 : Pre f e s0) by (eapply Pre_Step; eassumption).
+    unfold bind at 1 in Hb. unfold bind at 1.
+    destruct (index_value n sq s0) as [olt s1] eqn:E1.
+    assert (Hb1 : s_bad s1 = false).
+    { destruct olt as [lt|]; simpl in Hb; [|exact Hb].
+      eapply (bad_false_before _ (tail2 it lt)); [apply BMt|exact Hb]. }
+    assert (S1 : Step s0 s1 (spec_value f e sq)).
+    { replace s1 with (snd (index_value n sq s0)) by now rewrite E1. apply IHv; auto. now rewrite E1. }
+    destruct (list_literal_typed n sq s0 Hll) as [lt [et [Elt Eet]]]; [now rewrite E1|].
+    rewrite E1 in Elt. simpl in Elt. subst olt. simpl in *.
+    unfold tail2 in *. unfold bind at 1 in Hb. unfold bind at 1. unfold lift at 1 in Hb. unfold lift at 1.
+    rewrite Eet in *. simpl in *.
+    repeat (unfold bind at 1 in Hb; simpl in Hb). repeat (unfold bind at 1; simpl).
+    unfold seq at 1 in Hb. unfold seq at 1. simpl in *.
+    assert (P1 : Pre f e s1) by (eapply Pre_Step; eassumption).
+    eapply Step_trans; [exact S0|]. eapply Step_trans; [exact S1|].
+    rewrite ?(first_ident_eq var), ?(first_ident_eq acc) in HR2. rewrite ?Eia in HR2. rewrite ?Eiv in HR2.
+    rewrite ?(first_ident_eq var), ?(first_ident_eq acc). rewrite ?Eia. rewrite ?Eiv.
+    apply (scoped_vars2_value n IHv KXFoldl ia it iv et body f e s1 eq_refl P1 Hfb HR2). exact Hb.
+  Qed.
+End OpsCase.
+
+Section OpsCase2.
+  Variable n : nat.
+  Hypothesis IHv : sim_value n.
+
+  Lemma case_ops : sim_ops (S n).
+  Proof.
+    intros op a vs r f e s Hf Hfo P HR Hb.
+    destruct op; cbn [index_bang_ops bang_check_each] in Hb |- *; unfold spec_operands in HR |- *;
+      try (apply (plain_ops_each n IHv); assumption);
+      try (apply (plain_ops_none n IHv (fun s0 os => bang_post s0 _ a (combine (map value_rng vs) os))); assumption).
+    - (* XFilter *)
+      destruct vs as [|var [|sq [|body [|x rest]]]]; try discriminate.
+      simpl in Hf, Hfo. apply andb_true_iff in Hfo. destruct Hfo as [Hid Hll].
+      apply andb_true_iff in Hf. destruct Hf as [_ Hf]. apply andb_true_iff in Hf. destruct Hf as [Hfs Hf].
+      apply andb_true_iff in Hf. destruct Hf as [Hfb _].
+      cbn [nth_error lift bind] in Hb |- *.
+      apply (ops_filter_like n IHv KXFilter (fun m lt => seq m (ret lt)) var sq body f e s); auto.
+    - (* XFoldl *)
+      destruct vs as [|init [|sq [|acc [|var [|body [|x rest]]]]]]; try discriminate.
+      simpl in Hf, Hfo.
+      apply andb_true_iff in Hfo. destruct Hfo as [Hfo Hiv]. apply andb_true_iff in Hfo. destruct Hfo as [Hfo Hia].
+      apply andb_true_iff in Hfo. destruct Hfo as [Hpl Hll].
+      apply andb_true_iff in Hf. destruct Hf as [Hfi Hf]. apply andb_true_iff in Hf. destruct Hf as [Hfs Hf].
+      apply andb_true_iff in Hf. destruct Hf as [_ Hf]. apply andb_true_iff in Hf. destruct Hf as [_ Hf].
+      apply andb_true_iff in Hf. destruct Hf as [Hfb _].
+      cbn [nth_error lift bind] in Hb |- *.
+      apply (ops_foldl n IHv init sq acc var body f e s); auto.
+    - (* XForEach *)
+      destruct vs as [|var [|sq [|body [|x rest]]]]; try discriminate.
+      simpl in Hf, Hfo. apply andb_true_iff in Hfo. destruct Hfo as [Hid Hll].
+      apply andb_true_iff in Hf. destruct Hf as [_ Hf]. apply andb_true_iff in Hf. destruct Hf as [Hfs Hf].
+      apply andb_true_iff in Hf. destruct Hf as [Hfb _].
+      cbn [nth_error lift bind] in Hb |- *.
+      apply (ops_filter_like n IHv KXForeach
+               (fun m lt => bind (try_ m) (fun et => ret (MList match et with Some t => t | None => MUnknown end)))
+               var sq body f e s); auto.
+      intros m lt s0. unfold bind, try_. destruct (m s0); reflexivity.
+  Qed.
+End OpsCase2.
+
+Theorem values_agree : forall n,
+    sim_value n /\ sim_inner n /\ sim_simple n /\ sim_arg n /\ sim_bang n /\ sim_ops n.
+Proof.
+  induction n as [|n (IHv & IHi & IHs & IHa & IHb & IHo)].
+  - unfold sim_value, sim_inner, sim_simple, sim_arg, sim_bang, sim_ops.
+    split; [|split; [|split; [|split; [|split]]]]; intros; simpl in *; discriminate.
+  - assert (Hv : sim_value (S n)) by (apply case_value; assumption).
+    split; [exact Hv|]. split; [apply case_inner; assumption|]. split; [apply case_simple; assumption|].
+    split; [apply case_arg; assumption|]. split; [apply case_bang; assumption|apply case_ops; assumption].
+Qed.
+
+Lemma value_agrees : forall n v f e s,
+    frag_value v = true -> Pre f e s -> forallb resolved (spec_value f e v) = true ->
+    s_bad (snd (index_value n v s)) = false -> Step s (snd (index_value n v s)) (spec_value f e v).
+Proof. intros n. apply (values_agree n). Qed.
+Lemma arg_agrees : forall n a f e s,
+    frag_arg a = true -> Pre f e s -> forallb resolved (spec_arg f e a) = true ->
+    s_bad (snd (index_arg n a s)) = false -> Step s (snd (index_arg n a s)) (spec_arg f e a).
+Proof. intros n. apply (values_agree n). Qed.
+
+(** the initial state is related to the empty environment *)
+Lemma Pre_initial : Pre 0 env0 st0.
+Proof.
+  split; try reflexivity; intros; try discriminate.
+Qed.
